@@ -2,6 +2,7 @@ SPECIFICATION Spec
 CONSTANTS
   Scheds <- SchedsBetween
   Blocking = {}
+  Panicking = {}
   MaxNow = 4
   MaxStep = 3
   MaxOps = 4
